@@ -93,6 +93,19 @@ pub fn campaigns(ctx: &Ctx) -> Stats {
         Some("images up to 4x4 (quick) / 6x6 (thorough), filters up to 3x3 (<= image), both strides 1..3 independently, depth and filter count 1..2 (quick) / 1..3 (thorough), batch absent/[1]/[2]/[3]/[2,2]; exact integer data"),
         |i| Some(fwd(&cfgs[i as usize])),
     ));
+    st.merge(ctx.run_indexed("small-configurations-with-tracked-operands", cfgs.len() as u64, None, |i| {
+        let cfg = &cfgs[i as usize];
+        let sub = 1 + (i % 3);
+        Some(FwdCase { op: cfg.op(), leaves: cfg.leaves([sub & 1 == 1, sub & 2 == 2]), force_exact: None, second_is_view_of_first: None })
+    }));
+    // the same shapes again and again with different values, each image dropped before the next is built
+    st.merge(ctx.run_indexed("same-shape-different-values", 24, None, |i| {
+        let cfg = &cfgs[(i as usize * 997) % cfgs.len()];
+        let calls = (0..5u64)
+            .map(|k| FwdCase { op: cfg.op(), leaves: vec![LeafSpec { dims: cfg.image.clone(), vals: gen_vals(i * 10 + k, numel(&cfg.image), VKind::Int), tracked: false }, LeafSpec { dims: cfg.filters.clone(), vals: gen_vals(i * 10 + k + 100, numel(&cfg.filters), VKind::Int), tracked: false }], force_exact: None, second_is_view_of_first: None })
+            .collect();
+        Some(Case6::S(SeqCase { calls }))
+    }));
     st.merge(ctx.run_indexed("value-patterns", (N_PATTERNS * N_PATTERNS) as u64 * 3, None, |i| {
         let (pa, pb) = ((i % N_PATTERNS as u64) as usize, ((i / N_PATTERNS as u64) % N_PATTERNS as u64) as usize);
         let image: Vec<usize> = [vec![1, 2, 2], vec![2, 1, 2, 2], vec![2, 3, 4]][(i / (N_PATTERNS * N_PATTERNS) as u64) as usize].clone();
